@@ -299,10 +299,10 @@ def st_If(ex, st, s, cx):
         tv = ex.truth(s2, c)
         outs = []
         if ex.feasible(s2, tv):
-            outs += exec_block(ex, s2.assume(tv), s.body, cx)
+            outs += exec_block(ex, ex.narrow(s2, s.test, True).assume(tv), s.body, cx)
         ntv = z3.Not(tv)
         if ex.feasible(s2, ntv):
-            outs += exec_block(ex, s2.assume(ntv), s.orelse, cx)
+            outs += exec_block(ex, ex.narrow(s2, s.test, False).assume(ntv), s.orelse, cx)
         return outs
     return ex.ev(st, s.test, cx, f)
 
